@@ -293,8 +293,11 @@ pub fn c08_source(ctx: &Ctx) -> Outcome {
                     let mut alphabet = reduced_alphabet(w, pk);
                     alphabet.extend(code_ops());
                     alphabet.extend(copy_ops(w, thorough));
-                    alphabet.push(ROp::SetPos(0));
-                    alphabet.push(ROp::SetPos(w as u64 + 3));
+                    if wrapper.is_empty() {
+                        // (the counting wrapper's counter is part of its state: with seeks the space would not close)
+                        alphabet.push(ROp::SetPos(0));
+                        alphabet.push(ROp::SetPos(w as u64 + 3));
+                    }
                     let imgs = images(e, nbits, seed, thorough);
                     // seeded, valid codewords (table look-ahead before and after copies), all-ones in thorough
                     let sel: Vec<usize> = if thorough { vec![0, 1, 4] } else { vec![1] };
